@@ -20,6 +20,7 @@ import (
 
 	"github.com/nspcc-dev/neo-go/pkg/compiler"
 	"github.com/nspcc-dev/neo-go/pkg/smartcontract/callflag"
+	"github.com/nspcc-dev/neo-go/pkg/smartcontract/nef"
 	"github.com/nspcc-dev/neo-go/pkg/smartcontract/scparser"
 	"github.com/nspcc-dev/neo-go/pkg/vm"
 	"github.com/nspcc-dev/neo-go/pkg/vm/opcode"
@@ -54,15 +55,74 @@ type compRes struct {
 
 const gasLimit = 20_000_000 // instructions; the Go side bounds a call to 4000 loop iterations + function entries
 
-func neoSource(p *Prog) string {
+const inlineImport = "import \"github.com/nspcc-dev/neo-go/pkg/compiler/testdata/inline\"\n"
+
+func fileSource(p *Prog, body string, last bool) string {
 	var b strings.Builder
 	b.WriteString("package foo\n\n")
-	b.WriteString(p.Imports)
-	b.WriteString(p.Plain)
-	if p.Init != "" {
+	if p.Imports != "" && strings.Contains(body, "inline.") {
+		b.WriteString(p.Imports)
+	}
+	b.WriteString(body)
+	if last && p.Init != "" {
 		b.WriteString("func init() {\n" + p.Init + "}\n")
 	}
 	return b.String()
+}
+
+func neoSource(p *Prog) string {
+	if len(p.Files) > 1 {
+		var b strings.Builder
+		for i, f := range p.Files {
+			fmt.Fprintf(&b, "// ---- file %c.go\n", 'a'+i)
+			b.WriteString(fileSource(p, f, i == len(p.Files)-1))
+		}
+		return b.String()
+	}
+	return fileSource(p, p.Plain, true)
+}
+
+var workDir string // multi-file packages are written below it
+
+// modDir is the harness module (go.mod with `replace github.com/nspcc-dev/neo-go => /repo`).
+var modDir = func() string {
+	if wd, err := os.Getwd(); err == nil {
+		if _, err := os.Stat(filepath.Join(wd, "go.mod")); err == nil {
+			return wd
+		}
+	}
+	return "/verif/harness"
+}()
+
+// compileNeo runs the real compiler: a single source through the io.Reader interface, a multi-file package from
+// a directory with its own go.mod.
+func compileNeo(p *Prog) (*nef.File, *compiler.DebugInfo, error) {
+	if len(p.Files) <= 1 {
+		// the file name fixes the directory in which the imports are resolved: the harness module
+		return compiler.CompileWithOptions(filepath.Join(modDir, "foo.go"), strings.NewReader(neoSource(p)), nil)
+	}
+	dir := filepath.Join(workDir, fmt.Sprintf("mf%d", p.K))
+	if err := os.MkdirAll(dir, 0o755); err != nil {
+		return nil, nil, err
+	}
+	defer os.RemoveAll(dir)
+	gomod := "module foo\n\ngo 1.23\n"
+	if p.Imports != "" {
+		gomod = "module foo\n\ngo 1.25.0\n\nrequire github.com/nspcc-dev/neo-go v0.0.0\n\nreplace github.com/nspcc-dev/neo-go => /repo\n"
+		if sum, err := os.ReadFile("/repo/go.sum"); err == nil {
+			os.WriteFile(filepath.Join(dir, "go.sum"), sum, 0o644)
+		}
+	}
+	if err := os.WriteFile(filepath.Join(dir, "go.mod"), []byte(gomod), 0o644); err != nil {
+		return nil, nil, err
+	}
+	for i, f := range p.Files {
+		name := filepath.Join(dir, fmt.Sprintf("%c.go", 'a'+i))
+		if err := os.WriteFile(name, []byte(fileSource(p, f, i == len(p.Files)-1)), 0o644); err != nil {
+			return nil, nil, err
+		}
+	}
+	return compiler.CompileWithOptions(dir, nil, nil)
 }
 
 func canonItem(it stackitem.Item, k Kind) string {
@@ -142,8 +202,7 @@ func compileAndRun(p *Prog, gores map[string]goRes) (cr *compRes) {
 			cr.panicked = true
 		}
 	}()
-	src := neoSource(p)
-	nf, di, err := compiler.CompileWithOptions("foo.go", strings.NewReader(src), nil)
+	nf, di, err := compileNeo(p)
 	if err != nil {
 		cr.err = err.Error()
 		return
@@ -260,6 +319,71 @@ func checkABI(p *Prog, cr *compRes, script []byte, di *compiler.DebugInfo, mf in
 			fails = append(fails, fmt.Sprintf("debug-param-count method %s: debug info lists %d parameters, the source has %d", m.id, m.nparams, want))
 		}
 	}
+	// a `_deploy(data, isUpdate)` of the source must be in the debug info (and from there in the manifest)
+	if p.HasDeploy {
+		found := false
+		for _, m := range cr.methods {
+			if m.id == "_deploy" {
+				found = true
+				if m.nparams != 2 {
+					fails = append(fails, fmt.Sprintf("abi-deploy-params _deploy is listed with %d parameters", m.nparams))
+				}
+			}
+		}
+		if !found {
+			fails = append(fails, "abi-deploy-missing the source declares _deploy(data, isUpdate) but debug info / manifest do not list it")
+		}
+	}
+	// every slot index used is inside what INITSSLOT / INITSLOT reserve
+	{
+		nstatic := 0
+		if len(order) > 0 && starts[order[0]] == opcode.INITSSLOT {
+			nstatic = int(params[order[0]][0])
+		}
+		mstart := map[int]bool{}
+		for _, m := range cr.methods {
+			mstart[m.start] = true
+		}
+		for t := range calls {
+			mstart[t] = true
+		}
+		nloc, narg := 0, 0
+		reported := false
+		for _, ip := range order {
+			op := starts[ip]
+			if mstart[ip] {
+				nloc, narg = 0, 0
+			}
+			if op == opcode.INITSLOT {
+				nloc, narg = int(params[ip][0]), int(params[ip][1])
+			}
+			idx, lim, kind := -1, 0, ""
+			switch {
+			case op >= opcode.LDSFLD0 && op <= opcode.LDSFLD6:
+				idx, lim, kind = int(op-opcode.LDSFLD0), nstatic, "static"
+			case op == opcode.LDSFLD || op == opcode.STSFLD:
+				idx, lim, kind = int(params[ip][0]), nstatic, "static"
+			case op >= opcode.STSFLD0 && op <= opcode.STSFLD6:
+				idx, lim, kind = int(op-opcode.STSFLD0), nstatic, "static"
+			case op >= opcode.LDLOC0 && op <= opcode.LDLOC6:
+				idx, lim, kind = int(op-opcode.LDLOC0), nloc, "local"
+			case op == opcode.LDLOC || op == opcode.STLOC:
+				idx, lim, kind = int(params[ip][0]), nloc, "local"
+			case op >= opcode.STLOC0 && op <= opcode.STLOC6:
+				idx, lim, kind = int(op-opcode.STLOC0), nloc, "local"
+			case op >= opcode.LDARG0 && op <= opcode.LDARG6:
+				idx, lim, kind = int(op-opcode.LDARG0), narg, "argument"
+			case op == opcode.LDARG || op == opcode.STARG:
+				idx, lim, kind = int(params[ip][0]), narg, "argument"
+			case op >= opcode.STARG0 && op <= opcode.STARG6:
+				idx, lim, kind = int(op-opcode.STARG0), narg, "argument"
+			}
+			if idx >= lim && idx >= 0 && !reported {
+				reported = true
+				fails = append(fails, fmt.Sprintf("slot-out-of-range %s at %d uses %s slot %d, only %d are reserved", op, ip, kind, idx, lim))
+			}
+		}
+	}
 	// every call target is the start of a method
 	var cts []int
 	for t := range calls {
@@ -319,6 +443,7 @@ func main() {
 	f := hx.ParseFlags()
 	o := hx.NewOut(f.Out)
 	defer o.Close()
+	workDir, _ = filepath.Abs(f.Out)
 	n := f.N(720, 6000)
 	ntuples := 12
 	corpus := corpusProgs()
@@ -336,6 +461,12 @@ func main() {
 			p.Plain = rename(p.Plain, k, false)
 			p.Init = rename(p.Init, k, false)
 			p.ResetP = rename(p.ResetP, k, false)
+			for i := range p.Files {
+				p.Files[i] = rename(p.Files[i], k, false)
+			}
+			if len(p.Files) > 0 {
+				p.Plain = strings.Join(p.Files, "")
+			}
 			for _, e := range p.Entries {
 				e.Name = rename(e.Name, k, false)
 			}
@@ -477,6 +608,9 @@ func main() {
 				switch {
 				case g.plain == "panic" && v == "fault":
 					o.Count("tuple:both-fail")
+				case p.Kind == "corpus" && p.Key == "" && v != g.plain:
+					o.Count("tuple:MISMATCH")
+					o.Fail("corpus-regression", k, "%s%v: go %s, VM %s %s", e.Name, t, g.plain, v, cr.vmerr[tk])
 				case g.swallow && v != g.plain:
 					// the compiled catch block of a deferred call without recover() ends the panic: from there on the
 					// VM execution has nothing to do with Go's any more (returns zero values / misses return values)
